@@ -186,6 +186,30 @@ func opsFor(round, k int, jt, pt, tt reflect.Type) []c09Op {
 			}
 			return "stable"
 		}},
+		{"json.Marshal(nested sorted maps after failed encodes of maps; result held)", func() string {
+			// the sort scratch of the map encoders is pooled: an encode that fails half-way (here, or at the same time on
+			// another goroutine) must leave the pool as it found it - the nested maps below each need a scratch of their own
+			bad := stdjson.RawMessage(`{"broken`)
+			json.Marshal(map[string]json.RawMessage{"a": json.RawMessage(`1`), "b": json.RawMessage(bad), "c": json.RawMessage(`2`)})
+			json.Marshal(map[string]any{"a": 1, "b": make(chan int), "c": 2})
+			json.Marshal(map[string]any{"a": 1, "b": map[string]any{"x": func() {}}})
+			json.Marshal(map[string]string{"a": "1"})
+			json.Marshal(map[string][]string{"a": {"1"}})
+			json.Marshal(map[string]MVal{"a": {1}})
+			nested := map[string]any{
+				"d": map[string]any{"z": k, "y": map[string]any{"q": "r", "p": []any{map[string]any{"n": 1, "m": 2}}}, "x": true},
+				"c": map[string]string{"k2": "v", "k1": "w"},
+				"b": map[string]json.RawMessage{"r2": json.RawMessage(`[1]`), "r1": json.RawMessage(`{}`)},
+				"a": map[string][]string{"s2": {"x"}, "s1": {"y", "z"}},
+				"e": map[string]bool{"t": true, "f": false},
+			}
+			want, werr := stdjson.Marshal(nested)
+			got, err := json.Marshal(nested)
+			if (err == nil) != (werr == nil) || !bytes.Equal(got, want) {
+				return fmt.Sprintf("%s|%v instead of %s|%v", got, err, want, werr)
+			}
+			return "stable"
+		}},
 		{"json.Unmarshal", func() string {
 			out := reflect.New(jt)
 			err := json.Unmarshal(jdoc, out.Interface())
